@@ -413,7 +413,19 @@ func c16cd(c *Ctx, v *variants.Variant) {
 					continue
 				}
 				eq := strings.Index(e.Text, "=")
-				if eq < 0 || !strings.HasSuffix(e.Text[:eq], ".maxExprCnt") || strings.Contains(e.Text[:eq], "(") {
+				if eq < 0 {
+					continue
+				}
+				// an op-assignment (+=, -=, …) or a step (++, --) of the budget is arithmetic on the limit
+				if k := strings.Index(e.Text, ".maxExprCnt"); k >= 0 && !strings.Contains(e.Text[:k], "(") && !strings.Contains(e.Text[:k], "=") {
+					rest := e.Text[k+len(".maxExprCnt"):]
+					if strings.HasPrefix(rest, "++") || strings.HasPrefix(rest, "--") || (len(rest) >= 2 && rest[1] == '=' && strings.ContainsAny(rest[:1], "+-*/%|&^")) || strings.HasPrefix(rest, "<<=") || strings.HasPrefix(rest, ">>=") {
+						npSets++
+						npBad = append(npBad, v.Where(np.Pos())+": newParser computes "+e.Text+" under ["+abbreviate(strings.Join(p[:i].facts(), " "))+"]")
+						continue
+					}
+				}
+				if !strings.HasSuffix(e.Text[:eq], ".maxExprCnt") || strings.Contains(e.Text[:eq], "(") {
 					continue
 				}
 				lhs, rhs := e.Text[:eq], e.Text[eq+1:]
